@@ -372,7 +372,7 @@ def mapFn (cfg : Cfg) : Nat → Val → List Val → RSt → R (List Val × RSt)
   | _, _, [], σ => .ok ([], σ)
   | n, f, x :: xs, σ => do
       let (y, σ1) ← applyFn cfg n f [x] σ
-      let (ys, σ2) ← mapFn cfg n f xs σ1
+      let (ys, σ2) ← lazyErr (mapFn cfg n f xs σ1)
       .ok (y :: ys, σ2)
 termination_by n _ xs _ => (n, 4, xs.length)
 
@@ -380,7 +380,7 @@ def filterFn (cfg : Cfg) : Nat → Val → List Val → RSt → R (List Val × R
   | _, _, [], σ => .ok ([], σ)
   | n, f, x :: xs, σ => do
       let (y, σ1) ← applyFn cfg n f [x] σ
-      let (ys, σ2) ← filterFn cfg n f xs σ1
+      let (ys, σ2) ← lazyErr (filterFn cfg n f xs σ1)
       .ok (if truthy y then x :: ys else ys, σ2)
 termination_by n _ xs _ => (n, 4, xs.length)
 
@@ -447,12 +447,12 @@ def execElem (cfg : Cfg) : Nat → Str → RSt → R (Sig × RSt)
              | "vy_map", [a, b] =>
                  let (f, v) := (match b with | .fn _ => (b, a) | _ => (a, b))
                  do let xs ← iterRange cfg v
-                    let (ys, σ2) ← mapFn cfg n f xs σ1
+                    let (ys, σ2) ← lazyErr (mapFn cfg n f xs σ1)
                     .ok (.normal, σ2.push (.list ys))
              | "vy_filter", [a, b] =>
                  let (f, v) := (match a with | .fn _ => (a, b) | _ => (b, a))
                  do let xs ← iterRange cfg v
-                    let (ys, σ2) ← filterFn cfg n f xs σ1
+                    let (ys, σ2) ← lazyErr (filterFn cfg n f xs σ1)
                     .ok (.normal, σ2.push (.list ys))
              | "sort_by", [a, b] =>
                  let (f, v) := (match a with | .fn _ => (a, b) | _ => (b, a))
@@ -572,7 +572,7 @@ def execMon (cfg : Cfg) : Nat → Nat → Nat → Int → RSt → R (Sig × RSt)
         match popped.reverse with
         | [a] => do
             let xs ← iterRange cfg a
-            let (ys, σ2) ← mapFn cfg n (.fn id) xs σ1
+            let (ys, σ2) ← lazyErr (mapFn cfg n (.fn id) xs σ1)
             .ok (.normal, σ2.push (.list ys))
         | [a, b] => do
             let xs ← (match a, b with
@@ -581,10 +581,10 @@ def execMon (cfg : Cfg) : Nat → Nat → Nat → Int → RSt → R (Sig × RSt)
               | a, _ => iterDigits a)
             match a, b with
             | .int _, .list ys => do
-                let (zs, σ2) ← mapFn2 cfg n (.fn id) (ys.map (fun y => (a, y))) σ1
+                let (zs, σ2) ← lazyErr (mapFn2 cfg n (.fn id) (ys.map (fun y => (a, y))) σ1)
                 .ok (.normal, σ2.push (.list zs))
             | _, _ => do
-                let (zs, σ2) ← mapFn2 cfg n (.fn id) (xs.map (fun x => (x, b))) σ1
+                let (zs, σ2) ← lazyErr (mapFn2 cfg n (.fn id) (xs.map (fun x => (x, b))) σ1)
                 .ok (.normal, σ2.push (.list zs))
         | [] => .error (.raised "TypeError")
         | _ => .error (.unmodelled "vectorise with three arguments")
@@ -604,7 +604,7 @@ def execMon (cfg : Cfg) : Nat → Nat → Nat → Int → RSt → R (Sig × RSt)
       else if ar = 1 then do
         let (x, σ1) := σ.pop1
         let xs ← iterRange cfg x
-        let (ys, σ2) ← filterFn cfg n (.fn id) xs σ1
+        let (ys, σ2) ← lazyErr (filterFn cfg n (.fn id) xs σ1)
         .ok (.normal, σ2.push (.list ys))
       else .ok (.normal, σ)
     else if m = 223 then  -- `ß` conditional application
@@ -631,7 +631,7 @@ def execMon (cfg : Cfg) : Nat → Nat → Nat → Int → RSt → R (Sig × RSt)
         match xs with
         | [] => .ok (.normal, σ1.push (.list []))
         | y :: r => do
-            let (zs, σ2) ← scanFn cfg n (.fn id) y r σ1
+            let (zs, σ2) ← lazyErr (scanFn cfg n (.fn id) y r σ1)
             .ok (.normal, σ2.push (.list zs))
     else .ok (.normal, σ)
 termination_by n _ _ _ _ => (n, 5, 0)
